@@ -1,2 +1,37 @@
-#include "verif_common.hh"
-int main(int argc, char** argv){ auto a = verif::parse_args(argc, argv); verif::Report r(a.property,"grid",a); return r.finish(); }
+// Engine `grid`: properties C14 (physics table lookups, continuous loss, MSC path
+// conversions) and C18 (device-portable algorithms and grid lookups).
+#include <exception>
+
+#include "corecel/Assert.hh"
+
+#include "grid_common.hh"
+#include "verif_celer.hh"
+
+int main(int argc, char** argv)
+{
+    auto args = verif::parse_args(argc, argv);
+    if (args.property != "C14" && args.property != "C18")
+    {
+        std::cerr << "grid_engine serves C14 and C18 (got '" << args.property << "')\n";
+        return 2;
+    }
+    verif::Report rep(args.property, "grid", args);
+    try
+    {
+        if (args.property == "C14")
+            gridv::run_c14(args, rep);
+        else
+            gridv::run_c18(args, rep);
+    }
+    catch (celeritas::DebugError const& e)
+    {
+        std::cerr << "uncaught DebugError (harness must catch per case): " << e.what() << "\n";
+        return 2;
+    }
+    catch (std::exception const& e)
+    {
+        std::cerr << "harness failure: " << e.what() << "\n";
+        return 2;
+    }
+    return rep.finish();
+}
